@@ -29,18 +29,24 @@ Fixpoint zcumsum_from (acc : Z) (l : list Z) : list Z :=
   match l with [] => [] | x :: t => (acc + x) :: zcumsum_from (acc + x) t end.
 Definition zunwrap (l : list Z) : list Z := zcumsum_from 0 l.
 
+Definition zlab (x : Z) : N := Z.to_N x.
+Definition zinj (n : N) : Z := Z.of_N n.
+
+Definition zops : ops Z := {|
+  op_t0 := 0; op_t1 := 1; op_add := Z.add; op_mul := Z.mul;
+  op_cos := zcos; op_sin := zsin; op_atan2 := zatan2;
+  op_sk_fwd := zsk_fwd; op_sk_inv := zsk_inv;
+  op_radial := zradial; op_kern := zkern; op_unwrap := zunwrap;
+  op_inj := zinj; op_lab := zlab |}.
+
 Definition zleaf := leaf Z.
 Definition zstage := stage Z.
 Definition zchain := chain Z.
 
-Definition ztransform : zstage -> bool -> dims -> dmat Z -> dmat Z :=
-  @transform Z 1 Z.mul zcos zsin zsk_fwd zradial zkern.
-Definition zctransform : zchain -> bool -> dims -> dmat Z -> dmat Z :=
-  @ctransform Z 1 Z.mul zcos zsin zsk_fwd zradial zkern.
-Definition zinverse : zstage -> bool -> dims -> dmat Z -> dmat Z :=
-  @inverse Z 0 zatan2 zsk_inv zunwrap.
-Definition zcinverse : zchain -> bool -> dims -> dmat Z -> dmat Z :=
-  @cinverse Z 0 zatan2 zsk_inv zunwrap.
+Definition ztransform : zstage -> bool -> dims -> dmat Z -> dmat Z := transform zops.
+Definition zctransform : zchain -> bool -> dims -> dmat Z -> dmat Z := ctransform zops.
+Definition zinverse : zstage -> bool -> dims -> dmat Z -> dmat Z := inverse zops.
+Definition zcinverse : zchain -> bool -> dims -> dmat Z -> dmat Z := cinverse zops.
 
 Definition row_eqbZ (a b : N * list Z) : bool :=
   N.eqb (fst a) (fst b) && list_eqb Z.eqb (snd a) (snd b).
@@ -54,3 +60,23 @@ Definition zpair_eqb (a b : list Z * list Z) : bool :=
   list_eqb Z.eqb (fst a) (fst b) && list_eqb Z.eqb (snd a) (snd b).
 Definition zpairs_eqb (l1 l2 : list (list Z * list Z)) : bool := list_eqb zpair_eqb l1 l2.
 Definition rows_eqb (l1 l2 : list (list Z)) : bool := list_eqb (list_eqb Z.eqb) l1 l2.
+
+(* ---- helpers / prediction at T := Z *)
+From PK Require Import Helpers.
+Definition zfitted := fitted Z.
+Definition zlift := lift zops.
+Definition zretract := retract zops.
+Definition zlift_state := lift_state zops.
+Definition zlift_input := lift_input zops.
+Definition zretract_state := retract_state zops.
+Definition zretract_input := retract_input zops.
+Definition zpredict := predict zops.
+Definition zpredict_trajectory := predict_trajectory zops.
+
+(* ---- names at T := Z *)
+From Coq Require Import String.
+From PK Require Import Names.
+Definition zskn (id : nat) : string := "IntAffine"%string.
+Definition znames_out := feature_names_out (T:=Z) zskn.
+Definition zsymbol_names := symbol_names (T:=Z) zskn.
+Definition strs_eqb (l1 l2 : list string) : bool := list_eqb String.eqb l1 l2.
